@@ -7,7 +7,7 @@ ID = 'C16'
 
 MANIFEST = {
     'engine': 'crosshair',
-    'text': 'CrossHair (symbolic execution with z3, symbolic strings) of the real generic_line_parser / parse_ob_line / parse_ob_csv_line / parse_ob_line_vw / parse_namespace source: cells, VW tokens, labels and namespace-map entries are symbolic strings; a well-formed line is rendered from them (TSV by joining with tabs, CSV through csv.writer, VW by the namespace syntax) and for every value within the bound CrossHair must confirm over all paths that the parser returns exactly the cells in order (empty and blank cells at the edges, quotes and delimiters inside CSV cells, unicode blanks), that VW tokens land joined by "-" without their two-character prefix in the column of their namespace with absent namespaces as None and the label from the first token, that a row with a wrong number of fields is never taken for a well-formed one, and that the namespace map yields the declared id->feature mapping and float set. Counterexamples are replayed on the real module. A history of two namespace maps with the same header (ids reassigned) is explored as well.',
+    'text': 'CrossHair (symbolic execution with z3, symbolic strings) of the real generic_line_parser / parse_ob_line / parse_ob_csv_line / parse_ob_line_vw / parse_namespace source: cells, VW tokens, labels and namespace-map entries are symbolic strings; a well-formed line is rendered from them (TSV by joining with tabs, CSV through csv.writer, VW by the namespace syntax) and for every value within the bound CrossHair must confirm over all paths that the parser returns exactly the cells in order (empty and blank cells at the edges, quotes and delimiters inside CSV cells, unicode blanks), that VW tokens land joined by "-" without their two-character prefix in the column of their namespace with absent namespaces as None and the label from the first token, that a row with a wrong number of fields is never taken for a well-formed one, and that the namespace map yields the declared id->feature mapping and float set. Counterexamples are replayed on the real module. A history of two namespace maps with the same header (ids reassigned) is explored as well. Three solver-driven conditions run the real code on concrete pools: loop_tsv (well-formed tab-separated rows, incl. cells starting with a double quote, through the real streaming loop) and vw_tokens (tokens containing no-break / ideographic spaces, tabs, colons through the real VW parser).',
     'note': 'Per condition <= 4 symbolic characters over alphabets of <= 5 letters; csv is a C module: symbolic strings are realised at that boundary (CrossHair then enumerates the models; still exhaustive for these alphabets); "two-character prefix" is read as the first two characters of the joined value (what the code does); 2-field namespace lines whose id contains "_" are outside the assumed format.',
     'technique': 'CrossHair symbolic execution of the real Python source (z3 string theory), per condition "Confirmed over all paths" or a replayed counterexample',
 }
